@@ -157,11 +157,21 @@ Section walk.
   Hypothesis V1 : valid o1.
   Hypothesis V2 : valid o2.
 
+  Lemma walk_attr_eq : forall a, NoDup (map (@fst Z string) (ra_vals a)) -> walk_attr o1 a = walk_attr o2 a.
+  Proof.
+    intros a W. unfold walk_attr. f_equal.
+    apply sorted_by_eq; try assumption; [apply Z_laws|reflexivity|].
+    intros x y Hx Hy E. now apply (NoDup_map_inj_on (@fst Z string) (ra_vals a)).
+  Qed.
+
   Lemma get_attrs_eq : forall a1 a2, Permutation a1 a2 -> wf_attrs a1 -> get_attrs o1 a1 = get_attrs o2 a2.
   Proof.
-    intros a1 a2 P W. unfold get_attrs. apply sorted_by_eq; try assumption; [apply str2_laws|].
-    intros a b Ha Hb E. apply (NoDup_map_inj_on ra_eid a1); try assumption.
-    unfold attr_key in E. now injection E.
+    intros a1 a2 P [W Wv]. unfold get_attrs. apply sorted_by_eq; try assumption; [apply str2_laws| |].
+    - rewrite <- (Permutation_map (walk_attr o2) P). apply Permutation_refl'.
+      apply map_ext_in. intros a Ha. apply walk_attr_eq. rewrite Forall_forall in Wv. now apply Wv.
+    - intros a b Ha Hb E. apply (NoDup_map_inj_on ra_eid (map (walk_attr o1) a1)); try assumption.
+      + rewrite map_map. exact W.
+      + unfold attr_key in E. now injection E.
   Qed.
 
   Lemma walk_enum_eq : forall e1 e2, enum_equiv e1 e2 -> wf_enum e1 -> walk_enum o1 e1 = walk_enum o2 e2.
@@ -351,6 +361,10 @@ Lemma dbc_oracle_free_lemma : forall o1 o2 r, valid o1 -> valid o2 -> wf_net r -
   dbc_raw o1 r = dbc_raw o2 r.
 Proof. intros. unfold dbc_raw. now rewrite (walk_oracle_free o1 o2). Qed.
 
+Lemma records_oracle_free_lemma : forall o1 o2 r, valid o1 -> valid o2 -> wf_net r ->
+  records_raw o1 r = records_raw o2 r.
+Proof. intros. unfold records_raw. now rewrite (walk_oracle_free o1 o2). Qed.
+
 Lemma build_order_free_lemma : forall o1 o2 r1 r2, valid o1 -> valid o2 -> wf_net r1 -> net_equiv r1 r2 ->
   md_raw o1 r1 = md_raw o2 r2 /\ save_raw o1 r1 = save_raw o2 r2 /\ dbc_raw o1 r1 = dbc_raw o2 r2.
 Proof.
@@ -389,8 +403,8 @@ Local Open Scope Z_scope.
 (* ties in every sort key that acmelib allows to tie: two attributes named "at" on one entity, two
    receivers named "N", two messages with id 5 on one interface (one static), two enums named
    "en", two types of size 8, nodes with id 1 on two buses, an enum with several values *)
-Definition ex_a1 : rattr := {| ra_h := 1; ra_name := "at"; ra_eid := "e-a1" |}.
-Definition ex_a2 : rattr := {| ra_h := 2; ra_name := "at"; ra_eid := "e-a2" |}.
+Definition ex_a1 : rattr := {| ra_h := 1; ra_name := "at"; ra_eid := "e-a1"; ra_vals := [(1, "on"); (0, "off")] |}.
+Definition ex_a2 : rattr := {| ra_h := 2; ra_name := "at"; ra_eid := "e-a2"; ra_vals := [] |}.
 Definition ex_t1 : sigtype := {| st_id := 0; st_name := "ty"; st_desc := ""; st_size := 8; st_kind := "integer";
   st_signed := false; st_min := "0"; st_max := "255"; st_scale := "1"; st_offset := "0" |}.
 Definition ex_t2 : sigtype := {| st_id := 1; st_name := "ty"; st_desc := "other"; st_size := 8; st_kind := "custom";
@@ -412,9 +426,9 @@ Definition ex_m2 : rmsg := {| rm_h := 11; rm_eid := "e-m2"; rm_attrs := []; rm_r
   rm_byteorder := "little-endian"; rm_cycle := 10; rm_sigs := [] |}.
 Definition ex_rnet : rnet :=
   {| rt_name := "net"; rt_desc := "";
-     rt_buses := [ {| rb_h := 41; rb_attrs := [ex_a1; ex_a2]; rb_builder := Some (50%N, "cb"); rb_name := "bus B"; rb_desc := ""; rb_baud := 0;
+     rt_buses := [ {| rb_h := 41; rb_attrs := [ex_a1; ex_a2]; rb_builder := Some {| bl_h := 50; bl_name := "cb"; bl_ops := [(2, 0, 4); (1, 4, 7)] |}; rb_name := "bus B"; rb_desc := ""; rb_baud := 0;
                       rb_nifs := [ {| rn_h := 22; rn_attrs := []; rn_name := "other"; rn_desc := ""; rn_id := 1; rn_msgs := [] |} ] |};
-                   {| rb_h := 40; rb_attrs := []; rb_builder := Some (51%N, "cb"); rb_name := "bus A"; rb_desc := ""; rb_baud := 500000;
+                   {| rb_h := 40; rb_attrs := []; rb_builder := Some {| bl_h := 51; bl_name := "cb"; bl_ops := [(0, 0, 11)] |}; rb_name := "bus A"; rb_desc := ""; rb_baud := 500000;
                       rb_nifs := [ {| rn_h := 21; rn_attrs := [ex_a2]; rn_name := "N"; rn_desc := ""; rn_id := 2; rn_msgs := [] |};
                                    {| rn_h := 20; rn_attrs := []; rn_name := "M"; rn_desc := ""; rn_id := 1; rn_msgs := [ex_m2; ex_m1] |} ] |} ] |}.
 
@@ -435,7 +449,7 @@ Lemma ex_rnet_nontrivial :
   /\ walk o_id ex_rnet = walk o_rev ex_rnet
   /\ rt_buses ex_rnet <> rev (rt_buses ex_rnet)
   /\ save_raw o_id ex_rnet = save_raw (o_rot 1) ex_rnet
-  /\ List.length (save_raw o_id ex_rnet) = 39%nat.
+  /\ List.length (save_raw o_id ex_rnet) = 53%nat.
 Proof. repeat split; try (vm_compute; reflexivity). intro H. vm_compute in H. discriminate H. Qed.
 
 (* ------------------------------------------------------------------ boolean well-formedness *)
@@ -457,7 +471,12 @@ Proof.
 Qed.
 
 Lemma wf_attrsb_sound : forall l, wf_attrsb l = true -> wf_attrs l.
-Proof. intros l H. apply (nodupb_sound String.eqb String.eqb_eq), H. Qed.
+Proof.
+  intros l H. unfold wf_attrsb in H. apply andb_true_iff in H as [H1 H2]. split.
+  - apply (nodupb_sound String.eqb String.eqb_eq), H1.
+  - revert H2. apply forallb_Forall, Forall_forall. intros a _ Ha.
+    apply (nodupb_sound Z.eqb Z.eqb_eq), Ha.
+Qed.
 Lemma wf_enumb_sound : forall e, wf_enumb e = true -> wf_enum e.
 Proof. intros e H. apply (nodupb_sound Z.eqb Z.eqb_eq), H. Qed.
 
@@ -478,14 +497,14 @@ Proof.
   split; [apply (nodupb_sound String.eqb String.eqb_eq), H1|].
   revert H2. apply forallb_Forall, Forall_forall. intros b _ Hb.
   unfold wf_busb in Hb. apply andb_true_iff in Hb as [B1 B]. apply andb_true_iff in B as [B2 B3].
-  repeat split; [now apply wf_attrsb_sound|apply (nodupb_sound Z.eqb Z.eqb_eq), B2|].
+  split; [now apply wf_attrsb_sound|]. split; [apply (nodupb_sound Z.eqb Z.eqb_eq), B2|].
   revert B3. apply forallb_Forall, Forall_forall. intros x _ Hx.
   unfold wf_nifb in Hx. apply andb_true_iff in Hx as [X1 X]. apply andb_true_iff in X as [X2 X3].
-  repeat split; [now apply wf_attrsb_sound|apply (nodupb_sound String.eqb String.eqb_eq), X2|].
+  split; [now apply wf_attrsb_sound|]. split; [apply (nodupb_sound String.eqb String.eqb_eq), X2|].
   revert X3. apply forallb_Forall, Forall_forall. intros m _ Hm.
   unfold wf_msgb in Hm. apply andb_true_iff in Hm as [M1 M]. apply andb_true_iff in M as [M2 M].
   apply andb_true_iff in M as [M3 M4].
-  repeat split; [now apply wf_attrsb_sound|apply (nodupb_sound String.eqb String.eqb_eq), M2| |].
+  split; [now apply wf_attrsb_sound|]. split; [apply (nodupb_sound String.eqb String.eqb_eq), M2|]. split.
   - revert M3. apply forallb_Forall, Forall_forall. intros rc _ Hrc. now apply wf_attrsb_sound.
   - revert M4. apply forallb_Forall, Forall_forall. intros s _ Hs. now apply wf_sigb_sound.
 Qed.
